@@ -1,7 +1,7 @@
 (* Extract.v -- extraction of the executable model for the correspondence check.
    Only ExtrOcamlBasic is used (bool, option, unit, list, prod, sumbool -> OCaml natives);
    N, positive, Z, nat stay Coq inductives.  No Extract Constant of our own. *)
-Require Import Base CharSet Partition LoopRange Regex Inclusion Constructors Deriv Explore Automaton Minimizer Compile Denote StrConv StrSearch BuilderSpec PartitionSpec.
+Require Import Base CharSet Partition LoopRange Regex Inclusion Constructors Deriv Explore Automaton Minimizer Compile Denote StrConv StrSearch Literal BuilderSpec PartitionSpec.
 Require Extraction.
 Require Import ExtrOcamlBasic.
 Extraction "extracted/model.ml"
@@ -31,6 +31,9 @@ Extraction "extracted/model.ml"
   lr_validb lr_finite lr_infinite lr_opt lr_star lr_plus lr_point lr_is_finite lr_is_infinite
   lr_is_point lr_is_zero lr_is_one lr_is_all lr_start lr_eqb lr_contains lr_includes lr_add
   lr_add_point lr_scale lr_mul lr_rmie lr_shift
+  (* literal (C08) *)
+  clampc from_str from_char from_u32 from_slice from_vec parse_smt_literal smt_display
+  char_to_smt smt_char_as_string lit_undouble lit_body
   (* strsearch (C06) *)
   naive_search find_sub_vector vector_prefix vector_suffix vector_concat smt_make
   str_concat str_len str_at str_substr str_prefixof str_suffixof str_contains str_indexof
